@@ -1,6 +1,6 @@
 (* C12 property theorems only (on the unit-phase LTS of Model_C11). *)
 From Coq Require Import List NArith Bool Arith.
-From Verif Require Import C11.Model_C11 C11.Proofs_C11 C12.Proofs_C12 C12.Gen_C12 C12.GenProofs_C12.
+From Verif Require Import C11.Model_C11 C11.Proofs_C11 C12.Proofs_C12 C12.Gen_C12 C12.GenProofs_C12 C11.ModelP_C11 C11.ProofsP_C11.
 Import ListNotations.
 
 (* After a stop request (or the failure limit) at most one further request per worker is sent:
@@ -118,3 +118,25 @@ Theorem C12_rate_bound_is_reached :
   countp (in_window 1000 0) (attempts 3 1000 [0; 200; 400; 600; 800; 1000; 1200]%Z) = 3.
 Proof. exact (proj2 rate_example). Qed.
 Print Assumptions C12_rate_bound_is_reached.
+
+(* ---- the stateful phase (ModelP_C11: execute_state_machine_loop, one thread) ----
+   After the stop request or the failure limit is visible at most ONE further step (request) is executed - the one whose
+   entry test came just before - whatever Hypothesis does inside run(), wherever the stop arrives, for every limit. *)
+Theorem C12_stateful_at_most_one_step_after_stop : forall c stop0 limit0 counter0 behs ls,
+  count_true (p_bodies (prun c ls (pinit stop0 limit0 counter0 behs))) <= 1.
+Proof. exact producer_at_most_one_after_stop. Qed.
+Print Assumptions C12_stateful_at_most_one_step_after_stop.
+
+(* A stateful phase entered after the stop was requested sends nothing and announces no scenario. *)
+Theorem C12_stateful_nothing_when_stopped_before_start : forall c limit0 counter0 behs ls,
+  let s := prun c ls (pinit true limit0 counter0 behs) in
+  p_bodies s = [] /\ scenario_statuses (p_out s) = [].
+Proof. exact producer_stopped_before_start. Qed.
+Print Assumptions C12_stateful_nothing_when_stopped_before_start.
+
+(* the bound is reached: the stop arrives between the entry test of a step and its request *)
+Theorem C12_stateful_one_step_after_stop_is_reached :
+  count_true (p_bodies (prun {| p_maxf := None; p_maxex := 5 |} (repeat LP 4 ++ [LStop] ++ repeat LP 9)
+                             (pinit false false 0 [([[StOk; StOk]], ROk)]))) = 1.
+Proof. vm_compute. reflexivity. Qed.
+Print Assumptions C12_stateful_one_step_after_stop_is_reached.
